@@ -130,10 +130,12 @@ class Ids(object):
         return str(self.n)
 
 
-def gen_history(rng, node, ids, p_loss=0.25, p_dup=0.25, top=True, genes=None, p_narrow=0.0):
+def gen_history(rng, node, ids, p_loss=0.25, p_dup=0.25, top=True, genes=None, p_narrow=0.0, budget=None):
     """a HOG history rooted at internal tree node `node` (None when every lineage is lost).
     p_narrow: probability that only one child clade survives at a level (single-lineage levels are what
     spellings omit, so this produces long implicit chains and duplications far below their group)"""
+    if budget is None:
+        budget = [8]          # duplications left for this family (keeps histories finite on deep trees)
     lins = []
     kids = list(node.kids)
     if not top and kids and rng.random() < p_narrow:
@@ -143,16 +145,17 @@ def gen_history(rng, node, ids, p_loss=0.25, p_dup=0.25, top=True, genes=None, p
         r = rng.random()
         if r < p_loss:
             continue
-        if r < p_loss + p_dup:
+        if r < p_loss + p_dup and budget[0] > 0:
+            budget[0] -= 1
             ncopies = rng.choice([2, 2, 2, 3, 4])
-            copies = [gen_member(rng, c, ids, p_loss, p_dup, genes, p_narrow) for _ in range(ncopies)]
+            copies = [gen_member(rng, c, ids, p_loss, p_dup, genes, p_narrow, budget) for _ in range(ncopies)]
             copies = [x for x in copies if x is not None]
             if len(copies) >= 2:
                 lins.append(('P', copies))
             elif len(copies) == 1:
                 lins.append(('O', copies[0]))
         else:
-            m = gen_member(rng, c, ids, p_loss, p_dup, genes, p_narrow)
+            m = gen_member(rng, c, ids, p_loss, p_dup, genes, p_narrow, budget)
             if m is not None:
                 lins.append(('O', m))
     if not lins:
@@ -160,13 +163,13 @@ def gen_history(rng, node, ids, p_loss=0.25, p_dup=0.25, top=True, genes=None, p
     return ('H', node.path, lins)
 
 
-def gen_member(rng, node, ids, p_loss, p_dup, genes, p_narrow=0.0):
+def gen_member(rng, node, ids, p_loss, p_dup, genes, p_narrow=0.0, budget=None):
     if not node.kids:
         g = ids.next()
         if genes is not None:
             genes.append((g, node))
         return ('G', g, node.path)
-    return gen_history(rng, node, ids, p_loss, p_dup, False, genes, p_narrow)
+    return gen_history(rng, node, ids, p_loss, p_dup, False, genes, p_narrow, budget)
 
 
 def h_tax(h):
